@@ -607,4 +607,25 @@ func HasVars(t *Term) bool {
 	return rec(t)
 }
 
+// VarIDs returns the IDs of the variable terms occurring in t.
+func VarIDs(t *Term) map[int]bool {
+	out := map[int]bool{}
+	seen := map[int]bool{}
+	var rec func(*Term)
+	rec = func(x *Term) {
+		if x == nil || seen[x.ID] {
+			return
+		}
+		seen[x.ID] = true
+		if x.Op == "var" {
+			out[x.ID] = true
+		}
+		for _, a := range x.Args {
+			rec(a)
+		}
+	}
+	rec(t)
+	return out
+}
+
 var _ = bits.Len64
